@@ -27,7 +27,7 @@ func (c12) Size(tier string) Size {
 	return Size{Batches: 4, Cases: 10}
 }
 func (c12) Rule() string {
-	return "binary built with -race (GORACE halt_on_error=0, log files counted, not the exit code). case = scenario: random schema of struct-backed and soft types (incl. soft types with nil maps) built once, then per goroutine a private list of operations from {NewURLFromRaw, NewRequest, UnmarshalDocument, UnmarshalPartialResource, GetType(n).New()+Set, MarshalDocument of a goroutine-private document made of resources of the shared types, GetType, HasType, Check, Rels}. Phase A (sequential): every op once, result fingerprint recorded, deep reflective fingerprint of the schema (exported and unexported state) compared before/after EACH op. Phase B: G in {2,4,8,16} goroutines with GOMAXPROCS in {2,16}, released together, each running its list N times into private buffers (no shared monitor state). Phase C: every concurrent result equals its sequential baseline; schema fingerprint unchanged; race log files parsed and deduplicated by the pair of outermost library frames. Non-trivial = scenario with >= 2 goroutines and >= 3 distinct op kinds; distinct = scenario hash."
+	return "binary built with -race (GORACE halt_on_error=0, log files counted, not the exit code). case = scenario: random schema of struct-backed and soft types (incl. soft types with nil maps) built once, then per goroutine a private list of operations from {NewURLFromRaw, NewRequest, UnmarshalDocument, UnmarshalPartialResource, GetType(n).New()+Set, MarshalDocument of a goroutine-private document made of resources of the shared types, GetType, HasType, Check, Rels}. Phase 0 (cold start): several brand-new copies of the schema are FIRST used by up to 16 goroutines at once (each starts by creating a resource of every type), so lazily initialised shared state is initialised under contention. Phase A (sequential): every op once, result fingerprint recorded, deep reflective fingerprint of the schema (exported and unexported state) compared before/after EACH op. Phase B: G in {2,4,8,16} goroutines with GOMAXPROCS in {2,16}, released together, each running its list N times into private buffers (no shared monitor state). Phase C: every concurrent result equals its sequential baseline; schema fingerprint unchanged; race log files parsed and deduplicated by the pair of outermost library frames. Non-trivial = scenario with >= 2 goroutines and >= 3 distinct op kinds; distinct = scenario hash."
 }
 func (c12) Assumptions() []string {
 	return []string{"the race detector is happens-before based: it reports races between accesses the workload performs, whatever their timing, and nothing about accesses not performed",
@@ -45,6 +45,9 @@ func (c12) Floors(tier string, c map[string]int64) []string {
 	if c["concurrent_ops"] < 1000 {
 		out = append(out, "fewer than 1000 concurrent operations")
 	}
+	if c["cold_rounds"] == 0 {
+		out = append(out, "no cold-start round (brand-new schema first used concurrently)")
+	}
 	return out
 }
 
@@ -52,7 +55,7 @@ func (c12) WorkerEnv(outdir string, batch int) []string {
 	return []string{fmt.Sprintf("GORACE=halt_on_error=0 log_path=%s", filepath.Join(outdir, fmt.Sprintf("race-b%d", batch)))}
 }
 
-var raceFrameRE = regexp.MustCompile(`^\s+(github\.com/mfcochauxlaberge/jsonapi\.[^\s(]+)\(`)
+var raceFrameRE = regexp.MustCompile(`^\s+(github\.com/mfcochauxlaberge/jsonapi\.\S*?)\(\)\s*$`)
 var anyFrameRE = regexp.MustCompile(`^\s+([A-Za-z0-9_./*()\-]+)\(`)
 
 // PostBatch parses the race detector's log files of one worker.
@@ -349,6 +352,11 @@ func (m c12) Case(c *Ctx, r *RNG) {
 		c.Counters["race_disabled_workers"] = 1
 	}
 	s := genSchema(r, genOpts{MaxTypes: 4, MaxAttrs: 5, MaxRels: 3, AllowWrap: true, Coherent: true})
+	for i := range s.Types {
+		if !s.Types[i].Wrapped && r.Chance(1, 3) {
+			s.Types[i].NoFromType = true // relationships declared without FromType (one-way relationships need none)
+		}
+	}
 	var schema *jsonapi.Schema
 	if pi := Guard(func() { schema = buildSchema(s) }); pi != nil {
 		c.Violate("panic@"+pi.Frame+"/build-schema", "%s", pi)
@@ -358,7 +366,60 @@ func (m c12) Case(c *Ctx, r *RNG) {
 	nops := c.Pick(12, 24)
 	lists := make([][]c12op, maxG)
 	for g := range lists {
-		lists[g] = m.genOps(r, s, nops)
+		// prologue: every goroutine first creates a resource of every type, so that the FIRST use of each
+		// type's constructor happens concurrently in the cold phase
+		for ti := range s.Types {
+			t := &s.Types[ti]
+			lists[g] = append(lists[g], c12op{Kind: "New+Set", Type: t.Name, Res: genResource(r, t, genID(r))})
+		}
+		lists[g] = append(lists[g], m.genOps(r, s, nops)...)
+	}
+	// Phase 0 (cold): brand-new schemas whose first users are concurrent goroutines. Nothing has touched
+	// these schemas before, so lazily initialised shared state is initialised under contention.
+	coldRounds := c.Pick(3, 8)
+	cold := make([][][]string, coldRounds)
+	for round := 0; round < coldRounds; round++ {
+		var fresh *jsonapi.Schema
+		if pi := Guard(func() { fresh = buildSchema(s) }); pi != nil {
+			c.Violate("panic@"+pi.Frame+"/build-schema", "%s", pi)
+			return
+		}
+		fpFresh := schemaFingerprint(fresh)
+		G := []int{16, 8, 2, 16, 4, 16, 8, 16}[round%8]
+		prev := runtime.GOMAXPROCS([]int{16, 2, 16, 4}[round%4])
+		res := make([][]string, G)
+		start := make(chan struct{})
+		var wg sync.WaitGroup
+		for g := 0; g < G; g++ {
+			wg.Add(1)
+			go func(g int) {
+				defer wg.Done()
+				buf := make([]string, 0, len(lists[g]))
+				<-start
+				for i := range lists[g] {
+					op := &lists[g][i]
+					var out string
+					if pi := Guard(func() { out = op.exec(s, fresh) }); pi != nil {
+						out = "panic:" + pi.Frame + ":" + panicClass(pi.Val)
+					}
+					buf = append(buf, out)
+				}
+				res[g] = buf
+			}(g)
+		}
+		close(start)
+		wg.Wait()
+		runtime.GOMAXPROCS(prev)
+		cold[round] = res
+		c.Count("cold_rounds")
+		for g := 0; g < G; g++ {
+			c.Add("concurrent_ops", len(res[g]))
+			c.Add("evaluations", len(res[g]))
+		}
+		if fp := schemaFingerprint(fresh); fp != fpFresh {
+			c.Violate("schema-modified-concurrently/cold-start", "a brand-new schema changed while %d goroutines used it for the first time: %s -> %s", G, clip(fpFresh, 1200), clip(fp, 1200))
+			return
+		}
 	}
 	if c.Index < 1 {
 		c.Sample(map[string]any{"schema": s, "goroutine_0_ops": lists[0]})
@@ -382,6 +443,17 @@ func (m c12) Case(c *Ctx, r *RNG) {
 			if fp := schemaFingerprint(schema); fp != fp0 {
 				c.Violate("schema-modified-by/"+op.Kind, "the schema changed during a sequential %s: before %s\nafter %s", op.Kind, clip(fp0, 1500), clip(fp, 1500))
 				return
+			}
+		}
+	}
+	// cold results against the sequential baseline
+	for round := range cold {
+		for g := range cold[round] {
+			for i, got := range cold[round][g] {
+				if got != base[g][i] {
+					c.Violate("concurrent-result-differs/cold-start/"+lists[g][i].Kind, "cold round %d goroutine %d got %q for %s, sequentially %q; schema %s", round, g, clip(got, 300), lists[g][i].Kind, clip(base[g][i], 300), desc())
+					return
+				}
 			}
 		}
 	}
